@@ -226,7 +226,8 @@ def explore(ctx, exe_san, exe, variant, cov, dist):
                    for f in ctx.findings.get("findings", []))
 
     def consume(results):
-        fan = [r for r in results if r["case"]["yield"] == "fan" and r["crash"] is None and not r["bug"]]
+        fan = [r for r in results if r["case"]["yield"] == "fan" and r["crash"] is None and not r["bug"] and
+               not r["case"].get("nomodel")]
         batches = [T.project(r, *variant) for r in fan]
         verdicts = T.accept_all(ctx, batches) if batches else []
         for r, b, bad in zip(fan, batches, verdicts):
